@@ -39,7 +39,19 @@ def corpus():
          'nWK', 'cnWK', 'SpKnwpK',             # foreign submission from the foreign thread's own running loop
          'cUK', 'cVpK', 'SpcKUK', 'SpcKVpK', 'SpkUK', 'ScUK',   # foreign thread: submit, then wait_from_anywhere()
          'SpBK', 'SpbK', 'SpBFpK', 'BK', 'bpK', 'SBK', 'gBeK', 'SpSBKK', 'SpBpKK']   # submit + wait() in the same task step
-    return [c for c in (B.letters_case(T, w) for T in (8, 100) for w in W) if c]
+    return ([c for c in (B.letters_case(T, w) for T in (8, 100) for w in W) if c]
+            + [B.burst_case(BURST, 'A')])     # 1100 submissions in ONE loop pass, wait(cancel=True), later wait()
+
+
+BURST = 1100
+
+
+def spaced(out, extra, gap=800, first=2000):
+    """insert the (expensive) extra cases far apart, so that they land in different Coq case files"""
+    out = list(out)
+    for i, c in enumerate(extra):
+        out.insert(min(len(out), first + i * gap), c)
+    return out
 
 
 def gen_exhaustive(tier, seed):
@@ -51,7 +63,13 @@ def gen_exhaustive(tier, seed):
     out += B.foreign_cases(base_alpha='SgyepKFWw', maxlen=3 if tier == 'quick' else 4, puts='uUVn')
     # submit-then-wait in one task step (no loop iteration in between) at every point of short programs
     out += B.word_cases('SBbpKFW', L)
-    return out
+    # large bursts in one loop pass (the timer delivers them; wait afterwards, one more submission, wait again);
+    # thorough: around 2^10 and with the burst arriving under a running call
+    big = [B.burst_case(BURST, 'B')]
+    if tier != 'quick':
+        big += [B.burst_case(n, 'A') for n in (1023, 1024, 1025, 1026)] + [B.burst_case(BURST, 'C'), B.burst_case(1300, 'B')]
+    out += [B.burst_case(n, sh, T) for T in (8, 100) for sh in 'ABC' for n in (2, 65, 257)]
+    return spaced(out, big)
 
 
 PROFILE = dict(p_fail=0.3, p_foreign=0.02, p_wait=0.22, p_settle=0.65, p_shutdown=0.2, max_subs=8, waits='WWwwBb')
